@@ -3,6 +3,7 @@ import random
 random.seed()
 
 from pysnark.runtime import LinComb
+from pysnark.boolean import LinCombBool
 
 class PackBool:
     def random(self): return random.randrange(0,2)
@@ -33,10 +34,10 @@ class PackIntMod:
             return [(val & (1 << i)) >> i for i in range((self.mod-1).bit_length())]
         
     def unpack(self, bits, pos):
-        if isinstance(bits[pos],LinComb):
-            # lincomb in: boundary checking
+        if isinstance(bits[pos],LinComb) or isinstance(bits[pos],LinCombBool):
+            # lincomb in: boundary checking (at the width of this packer, not the global bitlength)
             ret = LinComb.from_bits(bits[pos:pos+self.bitlen()])
-            ret.assert_lt(self.mod)
+            (self.mod-1-ret).assert_positive(self.bitlen())
             return ret
         else:
             return sum([(1<<ix)*v for (ix,v) in enumerate(bits[pos:pos+self.bitlen()])])
